@@ -45,7 +45,14 @@ Inductive stmt :=
 | SIf (c : expr) (s1 s2 : list stmt) (fas : list triple)
 | SSIf (c : expr) (inv : bool) (ss : list stmt)
 | SBreak (e : expr)
-| SWhile (lvs : list triple) (ss : list stmt) (bc : option name).
+| SWhile (lvs : list triple) (ss : list stmt) (bc : option name)
+(* StructInit: x = a new struct of type tn with these fields (an immutable value) *)
+| SStruct (x : name) (tn : N) (es : list expr)
+(* LateInitDeclaration / LateInitAssignment: a variable that is declared first and assigned later, possibly in
+   a nested block.  Such functions are in the fragment for the comparison of pass outputs only: `scoped` is
+   false on them, so the theorems (which rely on single assignment) say nothing about them. *)
+| SLateDecl (x : name)
+| SLateAssign (x : name) (e : expr).
 
 Record func := mkfunc { f_params : list name; f_body : list stmt; f_ret : expr }.
 
@@ -61,6 +68,9 @@ Section StmtInd.
   Hypothesis HSIf : forall c inv ss, Q ss -> P (SSIf c inv ss).
   Hypothesis HBreak : forall e, P (SBreak e).
   Hypothesis HWhile : forall lvs ss bc, Q ss -> P (SWhile lvs ss bc).
+  Hypothesis HStruct : forall x tn es, P (SStruct x tn es).
+  Hypothesis HLateDecl : forall x, P (SLateDecl x).
+  Hypothesis HLateAssign : forall x e, P (SLateAssign x e).
   Hypothesis HNil : Q [].
   Hypothesis HCons : forall s r, P s -> Q r -> Q (s :: r).
 
@@ -76,6 +86,9 @@ Section StmtInd.
     | SSIf c inv ss => HSIf c inv ss (go ss)
     | SBreak e => HBreak e
     | SWhile lvs ss bc => HWhile lvs ss bc (go ss)
+    | SStruct x tn es => HStruct x tn es
+    | SLateDecl x => HLateDecl x
+    | SLateAssign x e => HLateAssign x e
     end.
 
   Fixpoint stmts_ind2 (ss : list stmt) : Q ss :=
@@ -96,8 +109,9 @@ Definition defs (s : stmt) : list name :=
   | SBin x _ _ _ | SNot x _ | SPrim x _ _ => [x]
   | SCall _ _ ret => opt_names ret
   | SIf _ _ _ fas => map t_name fas
-  | SSIf _ _ _ | SBreak _ => []
+  | SSIf _ _ _ | SBreak _ | SLateAssign _ _ => []
   | SWhile _ _ bc => opt_names bc
+  | SStruct x _ _ | SLateDecl x => [x]
   end.
 
 (* every binder occurring in a statement, at any depth *)
@@ -111,6 +125,7 @@ Fixpoint binders (s : stmt) : list name :=
   | SSIf _ _ ss => go ss
   | SBreak _ => []
   | SWhile lvs ss bc => map t_name lvs ++ go ss ++ opt_names bc
+  | SStruct x _ _ | SLateDecl x | SLateAssign x _ => [x]
   end.
 Fixpoint binders_l (ss : list stmt) : list name :=
   match ss with [] => [] | s :: r => binders s ++ binders_l r end.
@@ -140,6 +155,8 @@ Fixpoint scoped (S : list name) (s : stmt) : bool :=
       forallb (fun t => in_scope S (t_e1 t)) lvs &&
       go (map t_name lvs ++ S) ss &&
       forallb (fun t => in_scope (defs_l ss ++ map t_name lvs ++ S) (t_e2 t)) lvs
+  | SStruct _ _ es => forallb (in_scope S) es
+  | SLateDecl _ | SLateAssign _ _ => false
   end.
 Fixpoint scoped_l (S : list name) (ss : list stmt) : bool :=
   match ss with [] => true | s :: r => scoped S s && scoped_l (defs s ++ S) r end.
@@ -187,6 +204,8 @@ Fixpoint scopedc (S : list name) (s : stmt) : bool :=
       forallb (fun t => in_scope S (t_e1 t)) lvs &&
       go (map t_name lvs ++ S) ss &&
       (ends_break ss || forallb (fun t => in_scope (defs_l ss ++ map t_name lvs ++ S) (t_e2 t)) lvs)
+  | SStruct _ _ es => forallb (in_scope S) es
+  | SLateDecl _ | SLateAssign _ _ => false
   end.
 Fixpoint scopedc_l (S : list name) (ss : list stmt) : bool :=
   match ss with [] => true | s :: r => scopedc S s && scopedc_l (defs s ++ S) r end.
